@@ -1127,6 +1127,12 @@ func (m *Model) envCases(s *Sink, rule string, set *ssa.Function) {
 		{"a variable of another type in the middle scope", "x", nil, map[string]any{"x": oldStr}, nil, obj(intT), false, "typed"},
 		{"a variable of another type two scopes out", "x", nil, nil, map[string]any{"x": oldStr}, obj(intT), false, "typed"},
 	}
+	// the language's nil is a value of its own type: a name that holds it is not free to take any type
+	if nilT := m.namedType("object", "Nil"); nilT != nil {
+		cases = append(cases,
+			scase{"a variable holding the nil object in the same scope", "x", map[string]any{"x": obj(nilT)}, nil, nil, obj(intT), false, "typed"},
+			scase{"a variable holding the nil object two scopes out", "x", nil, nil, map[string]any{"x": obj(nilT)}, obj(intT), false, "typed"})
+	}
 	verdict := map[string]string{"reserved": "", "typed": "", "innermost": ""}
 	und := ""
 	for _, sc := range cases {
